@@ -20,7 +20,10 @@ WANT = {"probes": False, "determinism": True, "roundtrip": True}
 MATCHERS: Dict[str, Any] = {
     # the combined file is re-read section by section (aliases before structs before messages): a closure whose
     # alias targets a struct or whose struct contains a message cannot be re-parsed
-    "C16-F2": lambda clause, case: clause == "combined_roundtrip" and
+    # (the clause name carries the Lean predicate: `noFwdRef` of Spec/Emit.lean is false on the closure — the class the
+    # theorem `reparse_fails_iff_forward_ref` proves to be exactly the failing one; the structural test on the closure
+    # is kept as a second, independent witness)
+    "C16-F2": lambda clause, case: clause == "combined_roundtrip_forward_ref" and
     (G.has_alias_of_struct(case) or G.has_struct_using_message(case)),
 }
 
